@@ -16,11 +16,11 @@ os.makedirs(base, exist_ok=True)
 if not os.path.isdir(repo):
     subprocess.run(["git", "-C", "/repo", "worktree", "add", "-f", "--detach", repo, "HEAD"], check=True, stdout=subprocess.DEVNULL, stderr=subprocess.DEVNULL)
 subprocess.run(["git", "-C", repo, "checkout", "-q", "--detach", subprocess.check_output(["git", "-C", "/repo", "rev-parse", "HEAD"], text=True).strip()], check=True)
-subprocess.run(["git", "-C", repo, "checkout", "-q", "--", "."], check=True)
+subprocess.run(["git", "-C", repo, "reset", "-q", "--hard", "HEAD"], check=True)
 subprocess.run(["git", "-C", repo, "clean", "-fdq", "-e", "target"], check=True)
-r = subprocess.run(["git", "-C", repo, "apply", "--3way", patch], stdout=subprocess.PIPE, stderr=subprocess.STDOUT, text=True)
+r = subprocess.run(["git", "-C", repo, "apply", patch], stdout=subprocess.PIPE, stderr=subprocess.STDOUT, text=True)
 if r.returncode != 0:
-    r = subprocess.run(["git", "-C", repo, "apply", patch], stdout=subprocess.PIPE, stderr=subprocess.STDOUT, text=True)
+    r = subprocess.run(["git", "-C", repo, "apply", "--3way", patch], stdout=subprocess.PIPE, stderr=subprocess.STDOUT, text=True)
     if r.returncode != 0:
         print("MUT %s %s APPLY-FAILED %s" % (pid, patch, r.stdout.strip()[:200]))
         sys.exit(0)
@@ -48,4 +48,4 @@ for c in checks:
     if p.returncode == 2:
         first = p.stdout.strip()[-300:].replace("\n", " | ")
     print("MUT %s %s check=%s exit=%d violations=%d %s" % (pid, patch.replace("/tmp/seed/out/", ""), c, p.returncode, len(viol), first), flush=True)
-subprocess.run(["git", "-C", repo, "checkout", "-q", "--", "."], check=True)
+subprocess.run(["git", "-C", repo, "reset", "-q", "--hard", "HEAD"], check=True)
